@@ -227,3 +227,22 @@ package spynode
 //@   loop 3 invariant sinceloop(same(txState.State, txState.Tx)) && node != nil && same(node.txs, node.store)
 //@   assert refeed_delivers_new_record at call HandleTx : [C04] err != nil ==> arg2 != nil && arg2.Tx == txs[i] && arg2.State.UnconfirmedDepth == 0 && converted(arg2.State.MerkleProof, merkleProofs[i], h)
 //@        && ProofTx(merkleProofs[i]) == TxHashOf(txs[i]) && ProofRoot(merkleProofs[i]) == h.MerkleRoot
+
+// The safe-report loop: a transaction is announced safe only if the unconfirmed set has just
+// marked it safe (GetNewSafe, C07: not unsafe, old enough, vouched for) and its stored record is
+// neither unsafe nor cancelled; the update is sent after the record was stored, for that txid, and
+// says safe and not unsafe.
+//@ spec dbase(n) = n != nil && same(n.txs, n.memPool, n.state, n.store) && n.txs != nil && n.memPool != nil && n.state != nil
+//@     && internalStorage.InvU(n.txs) && state.InvTx(n.memPool) && !held(n.memPool.mutex) && !held(n.txs.unconfirmedLock)
+
+//@ func (*Node).checkTxDelays
+//@   serves C07
+//@   opt nomonitor = 1
+//@   opt partial = 1
+//@   opt abstract = FetchTxState SaveTxState restart isStopping
+//@   opt track = SaveTxState GetNewSafe
+//@   requires dbase(node)
+//@   loop * invariant dbase(node)
+//@   loop 2 invariant dbase(node) && sinceloop(same(update.State, update.TxID)) && sinceloop(ncalls(SaveTxState) == old(ncalls(SaveTxState))) && sinceloop(lastarg(SaveTxState, 2) == old(lastarg(SaveTxState, 2)))
+//@   assert safe_report_is_warranted at call HandleTxUpdate : [C07] arg2.State.Safe && !arg2.State.UnSafe && !arg2.State.Cancelled && arg2.TxID == txid
+//@        && lastarg(SaveTxState, 2) == txState && arg2.State == txState.State && ncalls(GetNewSafe) >= 1
